@@ -194,6 +194,7 @@ class C07(Prop):
                                          min_size=2, max_size=3)),
             'actions': st.lists(st.sampled_from(['snapshot', 'log', 'snapshot', 'snapshot+log']), min_size=1, max_size=3),
             'frame_type': st.sampled_from(['single_frame', 'all_frame', 'all_frame']),
+            'stack_type': st.sampled_from([None, None, 'no_stack', 'stack', 'no_stack']),
             # unlimited in practice, cut inside the frame's own variables, or cut somewhere inside the watches
             'max_variables': st.one_of(st.just(1000), st.integers(1, 14), st.sampled_from([60, 150, 200, 230, 260, 300, 350, 420, 500])),
             'me': st.booleans(),
@@ -245,6 +246,9 @@ class C07(Prop):
             out.cls('deferred_capture')
         for i, a in enumerate(recipe['actions']):
             cfg = {'fire_count': '-1', 'fire_period': '0', 'frame_type': recipe['frame_type']}
+            if recipe.get('stack_type'):
+                cfg['stack_type'] = recipe['stack_type']
+                out.cls('stack_type_given')
             if recipe['max_variables'] < 1000:
                 cfg['MAX_VARIABLES'] = recipe['max_variables']     # int: only reachable by direct construction
             if a == 'log':
